@@ -58,7 +58,7 @@ func runClosest(in closestIn) (closestObs, string) {
 	switch in.Route {
 	case "":
 		c.VerifSetPwmMap(pm)
-	case "config", "persist", "hwmon", "cmd", "init", "symlink":
+	case "config", "persist", "hwmon", "cmd", "init", "symlink", "default":
 		closestSeq++
 		dir := filepath.Join(closestWork, fmt.Sprintf("r%d", closestSeq))
 		_ = os.MkdirAll(dir, 0o755)
@@ -67,7 +67,7 @@ func runClosest(in closestIn) (closestObs, string) {
 		for k, v := range pm {
 			given[k] = v
 		}
-		if in.Route == "config" || in.Route == "hwmon" || in.Route == "cmd" || in.Route == "init" || in.Route == "symlink" {
+		if in.Route == "config" || in.Route == "hwmon" || in.Route == "cmd" || in.Route == "init" || in.Route == "symlink" || in.Route == "default" {
 			filePath = filepath.Join(dir, "pwm")
 			if in.Route == "symlink" { // the control is reached through a symlinked directory (as /sys/class/hwmon/hwmonN is)
 				_ = os.MkdirAll(filepath.Join(dir, "devA"), 0o755)
@@ -103,6 +103,15 @@ func runClosest(in closestIn) (closestObs, string) {
 					SetPwm: &configuration.ExecConfig{Exec: set, Args: []string{"%pwm%"}},
 					GetPwm: &configuration.ExecConfig{Exec: get}}}
 			}
+			if in.Route == "default" {
+				// a cmd fan whose PWM cannot be read back, no override, nothing stored: the real computePwmMap falls
+				// through to util.InterpolateLinearlyInt({0:0, 255:255}, 0, 255); the recorded input map (the identity on
+				// 0..255) is NOT given to the controller, it is what the model says the controller computes for itself
+				set := filepath.Join(dir, "set.sh")
+				_ = os.WriteFile(set, []byte("#!/bin/sh\necho \"$1\" > "+filePath+"\n"), 0o755)
+				fc = configuration.FanConfig{ID: "rec", Curve: "c", Cmd: &configuration.CmdFanConfig{
+					SetPwm: &configuration.ExecConfig{Exec: set, Args: []string{"%pwm%"}}}}
+			}
 			ff, err := fans.NewFan(fc)
 			if err != nil {
 				panic(err)
@@ -110,7 +119,7 @@ func runClosest(in closestIn) (closestObs, string) {
 			// as in the daemon there is a database, and it already holds ANOTHER map for this fan (a dense identity map
 			// from an earlier start without override): the override must be used as it is
 			pers := persistence.NewPersistence(filepath.Join(dir, "fan2go.db"))
-			if closestSeq%2 == 0 {
+			if closestSeq%2 == 0 && in.Route != "default" {
 				dense := map[int]int{}
 				for k := 0; k <= 255; k++ {
 					dense[k] = k
@@ -277,6 +286,29 @@ func init() {
 			return
 		}
 		rng := NewRng(ctx.Seed, "closest")
+		// (0) the default map of a fan whose PWM cannot be read back: computed by the real controller, recorded as the
+		// identity on 0..255 (Proofs/DefaultMap.v derives that from the interpolation model)
+		{
+			var ident [][2]int
+			for k := 0; k <= 255; k++ {
+				ident = append(ident, [2]int{k, k})
+			}
+			// the 31 keys where the float64 expression alone would truncate to k-1, the ends, and out-of-range requests
+			sets := [][]int{{-50, -1, 0, 1, 15, 21, 30, 41, 42, 59, 60, 82}, {83, 84, 85, 118, 119, 120, 121, 164, 165, 166, 167, 168},
+				{169, 170, 171, 236, 237, 238, 239, 240, 241, 242, 243, 254, 255, 256, 305}}
+			nd := 3
+			if !ctx.Quick() {
+				var all []int
+				for k := -50; k <= 305; k++ {
+					all = append(all, k)
+				}
+				sets = append(sets, all)
+				nd = 4
+			}
+			for i := 0; i < nd; i++ {
+				emit1(closestIn{Pm: ident, Reqs: sets[i], Route: "default"}, "default-map", "route=default")
+			}
+		}
 		// (a) exhaustive: all maps over all subsets of a small key universe with outputs from a small alphabet
 		universe := []int{0, 3, 4, 10, 200, 255}
 		alphabet := []int{0, 7, 255}
